@@ -282,12 +282,26 @@ class err_handler(object):
         @type err_str: string
         """
         sout = ''
-        try:
+        node = self.cur_seg_node
+        if node is not None and node.id == 'SEG' and (self.seg_node_added or
+                (self.cur_st_node is not None and not self.cur_st_node.is_closed())):
             self._add_cur_seg()
-            self.cur_seg_node.add_error(err_cde, err_str, err_value)
-            self._touch(self.cur_seg_node)
-        except:
-            sout += 'No current segment in error_handler. '
+            node.add_error(err_cde, err_str, err_value)
+            self._touch(node)
+        else:
+            # Not in the body of an open transaction set: keep the error on the innermost loop still open
+            target = None
+            for cand in (self.cur_st_node, self.cur_gs_node, self.cur_isa_node):
+                if cand is not None and not cand.is_closed():
+                    target = cand
+                    break
+            if target is None:
+                target = self.cur_isa_node
+            if target is None:
+                sout += 'No current segment in error_handler. '
+            else:
+                target.add_error({'ST': '5', 'GS': '1', 'ISA': '024'}[target.id], err_str)
+                self._touch(target)
         if src_line:
             sout += 'Line:%i ' % (src_line)
         else:
